@@ -33,6 +33,16 @@ Next ==
     \/ /\ issued = {}
        /\ \E n \in 0..2 : \E ds \in [1..n -> Recs] :
              BuildFrom(ds) /\ lastput' = [i \in 0..(n - 1) |-> ds[i + 1]]
+    \/ /\ issued = {}
+       /\ \E n \in 0..2 : \E ds \in [1..n -> Recs], ks \in [1..n -> Keys] :
+             BuildKeyed(ks, ds) /\ lastput' = [i \in 0..(n - 1) |-> ds[i + 1]]
+    \/ /\ issued = {}
+       /\ \E i1, i2 \in Ids, d1, d2 \in Recs : i1 /= i2 /\ BuildAt(<<i1, i2>>, <<d1, d2>>)
+             /\ lastput' = [x \in {i1, i2} |-> IF x = i1 THEN d1 ELSE d2]
+    \/ \E k1, k2 \in Keys, d1, d2 \in Recs, i1, i2 \in Ids :
+          /\ PutBatchWithKeys(<<k1, k2>>, <<d1, d2>>, <<i1, i2>>)
+          /\ lastput' = [x \in DOMAIN lastput \cup {i1, i2} |-> IF x = i1 THEN d1 ELSE IF x = i2 THEN d2 ELSE lastput[x]]
+    \/ Maintenance /\ UNCHANGED lastput
     \/ SaveLoad /\ UNCHANGED lastput
     \/ \E k \in Keys, d \in Recs, id \in Ids : PutWithKey(k, d, id) /\ GhostPut(id, d)
 
@@ -79,6 +89,17 @@ KeyLaws ==
               /\ GetByKeyOk(k, TRUE, lastput[bykey[k]])
               /\ \A d \in Recs \ {lastput[bykey[k]]} : ~GetByKeyOk(k, TRUE, d)
               /\ \A d \in Recs : ~GetByKeyOk(k, FALSE, d)
+(* keys() lists exactly the keys whose latest record is live; a batch of keyed puts equals the sequence *)
+KeyListLaws ==
+    LET want == { k \in DOMAIN bykey : IsLive(bykey[k]) } IN
+    /\ \A r \in UNION { [1..n -> Keys] : n \in 0..NKeys } :
+          KeysOk(<<>>, TRUE, r) <=> (Len(r) = Cardinality(want) /\ RangeOf(r) = want)
+    /\ \A k \in DOMAIN bykey : bykey[k] \in DOMAIN keyof => keyof[bykey[k]] = k
+(* iter_blobs: the only accepted answer is every live record once with the bytes last put under its id *)
+IterBlobLaws ==
+    \A a \in Ids, d \in Recs :
+        IterBlobsOk(TRUE, <<[ok |-> TRUE, id |-> a, d |-> d]>>) <=> (Live = {a} /\ d = lastput[a])
+
 (* an id is never handed to a different record while a record is live under it *)
 NoLiveIdReissued == [][\A id \in (DOMAIN live) \cap (DOMAIN live') : live'[id] = live[id]]_vars
 (* ids handed out stay handed out (a builder starts a new store) *)
